@@ -45,7 +45,7 @@ harness(void)
 	want = in_kw ? TINT : TIDENT;
 	/* stream: [NL] [M->replaced] body [NL] body   (constant indices) */
 	for (i = 0; i < NS + 1; i++) { s_ptr[i] = &nl; s_exp[i] = false; }
-	if (in_ppnl) __CPROVER_assume(in_nl0 == 0 && in_nl1 == 0);
+	if (in_ppnl) __CPROVER_assume(in_nl1 == 0 && !in_rep0);
 	n = in_nl0;
 	if (in_rep0) { if (n == 0) { s_ptr[0] = &rep; s_exp[0] = true; } else { s_ptr[1] = &rep; s_exp[1] = true; } n++; }
 	if (n == 0) s_ptr[0] = &body; else if (n == 1) s_ptr[1] = &body; else s_ptr[2] = &body;
@@ -56,6 +56,10 @@ harness(void)
 	s_n = n; s_pos = 0;
 	ppflags = in_ppnl ? PPNEWLINE : 0;
 
+	if (in_ppnl && in_nl0) {
+		next();
+		__CPROVER_assert(s_pos == 1 && tok.kind == TNEWLINE, "while a directive is being read (PPNEWLINE) the new-line is a token: it ends the directive");
+	}
 	next();
 	__CPROVER_assert(s_pos == first_end, "new-lines outside directives and replaced macro names are skipped; the first other token is delivered");
 	__CPROVER_assert(tok.kind == want && tok.space == in_space && tok.hide && tok.loc.line == 7 && tok.loc.col == 3, "the delivered token is a copy of the raw token; an identifier spelling a keyword is that keyword");
